@@ -1,6 +1,7 @@
 # C16 Wire formats: writer/reader table agreement (structure of the codecs), prefix/sequence coding
 import re
 from sa.rules import *
+import rules.shared as shared
 from sa import codec
 
 def strip_src(L): return L
@@ -165,4 +166,5 @@ _rules_c16 = rules
 def rules(t):
     out = _rules_c16(t)
     out.append(reader_refusals(t))
+    out.append(shared.range_algebra(t, "C16.f"))
     return out
